@@ -23,8 +23,10 @@ type WatchEdit struct {
 	File    string `json:"file"`    // relative to the package dir
 	Content string `json:"content"` // new content ("" with Delete = remove the file)
 	Delete  bool   `json:"delete,omitempty"`
-	GapMs   int    `json:"gap_ms"` // pause after this edit
-	Kind    string `json:"kind"`
+	// RenameTo: rename File to this name inside the package directory
+	RenameTo string `json:"rename_to,omitempty"`
+	GapMs    int    `json:"gap_ms"` // pause after this edit
+	Kind     string `json:"kind"`
 }
 
 type C20Case struct {
@@ -33,7 +35,7 @@ type C20Case struct {
 	Delays  string      `json:"delays"` // VERIF_WATCH_DELAYS for the watcher process
 }
 
-const c20Rule = "a package of 1-3 model files importing a sibling package, watched by `yardl generate --watch` (built with the verif tag) x a generated schedule of 2-7 saves (valid change, YAML syntax error, rule violation, file deleted / created, touch without change, the imported package's manifest broken by an import that cannot be fetched / repaired, the python section removed from / restored in the watched package's own manifest while the watcher is idle, a valid change of the imported package's model; the last state valid, the last change a save - in the watched package or in the imported one -, a creation or a deletion) separated by gaps of 0-120 ms x per-regeneration delays of 0/60/350 ms injected at the hook inside generateImpl, so that an early regeneration can be made to outlast later ones. oracle: after the last save and quiescence (no output change for 1.2 s) the watcher is still running and the output tree equals that of a one-shot `yardl generate` of the final contents (when the final manifest has no python section: the python files are exactly those on disk when the section was removed, which a one-shot run would leave alone). non-trivial = a regeneration was delayed while later saves arrived (or regenerations overlapped in time per the hook log), or an invalid intermediate state occurred; distinct = hash of the schedule"
+const c20Rule = "a package of 1-3 model files importing a sibling package, watched by `yardl generate --watch` (built with the verif tag) x a generated schedule of 2-7 saves (valid change, YAML syntax error, rule violation, file deleted / created / renamed to a name yardl does not read and back, touch without change, the imported package's manifest broken by an import that cannot be fetched / repaired, the python section removed from / restored in the watched package's own manifest while the watcher is idle, a valid change of the imported package's model; the last state valid, the last change a save - in the watched package or in the imported one -, a creation or a deletion) separated by gaps of 0-120 ms x per-regeneration delays of 0/60/350 ms injected at the hook inside generateImpl, so that an early regeneration can be made to outlast later ones. oracle: after the last save and quiescence (no output change for 1.2 s) the watcher is still running and the output tree equals that of a one-shot `yardl generate` of the final contents (when the final manifest has no python section: the python files are exactly those on disk when the section was removed, which a one-shot run would leave alone). non-trivial = a regeneration was delayed while later saves arrived (or regenerations overlapped in time per the hook log), or an invalid intermediate state occurred; distinct = hash of the schedule"
 
 const c20Manifest = "namespace: Mdl\nimports:\n  - ../base\npython:\n  outputDir: ../out/py\njson:\n  outputDir: ../out/json\ncpp:\n  sourcesOutputDir: ../out/cpp\n  generateHDF5: false\n  generateCMakeLists: false\n"
 
@@ -63,10 +65,19 @@ func genC20(t *rapid.T) C20Case {
 	aInvalid := false // a.yml currently holds an invalid model
 	n := rapid.IntRange(2, 7).Draw(t, "edits")
 	hasB := true
+	bAway := false // b.yml currently sits in the package directory as b.yml.disabled
 	hasPy := true
 	for i := 0; i < n; i++ {
 		last := i == n-1
 		kinds := []string{"valid", "valid", "valid", "syntax-error", "rule-violation", "delete-b", "create-b", "touch", "base-break", "base-fix"}
+		if !last {
+			// b.yml renamed to a name yardl does not read (as good as deleted) and back
+			if hasB {
+				kinds = append([]string{"rename-b-away"}, kinds...)
+			} else if bAway {
+				kinds = append([]string{"rename-b-back"}, kinds...)
+			}
+		}
 		if !last && !baseBroken && !aInvalid {
 			// the watched package's own manifest: the python section removed / put back (done while the
 			// package is valid and the watcher idle, see runWatch)
@@ -115,6 +126,12 @@ func genC20(t *rapid.T) C20Case {
 		case "delete-b":
 			e.File, e.Delete = "b.yml", true
 			hasB = false
+		case "rename-b-away":
+			e.File, e.RenameTo = "b.yml", "b.yml.disabled"
+			hasB, bAway = false, true
+		case "rename-b-back":
+			e.File, e.RenameTo = "b.yml.disabled", "b.yml"
+			hasB, bAway = true, false
 		case "create-b":
 			e.File, e.Content = "b.yml", fmt.Sprintf("Other: !record\n  fields:\n    x: int\n    y%d: int\n", i)
 			hasB = true
@@ -238,6 +255,12 @@ func runWatch(c C20Case) (string, bool, bool) {
 			continue
 		}
 		switch {
+		case e.RenameTo != "":
+			os.Rename(p, filepath.Join(pkg, e.RenameTo))
+			if txt, ok := current[e.File]; ok {
+				current[e.RenameTo] = txt
+				delete(current, e.File)
+			}
 		case e.Delete:
 			os.Remove(p)
 			delete(current, e.File)
